@@ -4,7 +4,7 @@ import sweeps
 from sweeps import ALL, WS, program_units, diff_sweep, halts_extra
 import C02
 
-PROPS_VO = ['Props/C03.vo']
+PROPS_VO = ['Props/C03.vo', 'Props/Patterns_props.vo']
 GEN_ITEMS = ['coq/Gen/GenTables.v', 'coq/Gen/GenStdlib.v', 'coq/Gen/GenContext.v']
 GEN_FROM = {'regen_context': ['coq/Gen/GenContext.v']}
 LEVEL = 'proof'
@@ -20,12 +20,16 @@ def run(ctx):
     q = ctx.tier == 'quick'
     ws = [2, 3, 4] if q else WS
     h = halts_extra(ctx)
+    from component import run_corr
+    import genhist
+    run_corr(ctx, 'corr_patterns', 'every emitted j classifies as a proved idiom (Patterns.classify)')
+    diff_sweep(ctx, 'directed time-travel corpus', genhist.directed_units(ws), extra=h)
     units = program_units(rng, 100 if q else 1200, ALL + ['tt', 'faults'], ws, cfgs_per=3, seed_base=ctx.seed + 300)
     diff_sweep(ctx, 'all constructs incl. faults', units, extra=h)
     diff_sweep(ctx, 'histories of try blocks', C02.history_units(rng, 150 if q else 2000, ws, ctx.seed + 301), extra=h)
     units = program_units(rng, 40 if q else 500, ALL + ['tt'], ws, cfgs_per=2, seed_base=ctx.seed + 302, unchecked=True)
     diff_sweep(ctx, 'unchecked builds (fault-free by construction)', units, extra=h)
     st = ctx.cov['distribution']
-    verdicts = sum(v for d in st.values() for k, v in d['outcomes(vm/ref)'].items() if k.split('/')[0] in ('win', 'error', 'loop'))
+    verdicts = sum(v for d in st.values() if isinstance(d, dict) for k, v in d.get('outcomes(vm/ref)', {}).items() if k.split('/')[0] in ('win', 'error', 'loop'))
     ctx.cov['never_halts_proof_instances'] = verdicts
     ctx.cov['rule'] = sweeps.RULE + '; every ABSORBED/FAULT verdict is an instance of vm_sound (~Halts), a HALT verdict is a proof of the violation'
